@@ -1,8 +1,8 @@
 package main
 
 import (
-	"image"
 	"fmt"
+	"image"
 	"image/color"
 	"math"
 	"runtime"
@@ -19,8 +19,8 @@ func init() {
 	corrFuncs["C04"] = corrC04
 }
 
-func fb(x float32) uint32       { return math.Float32bits(x) }
-func bf(b uint32) float32       { return math.Float32frombits(b) }
+func fb(x float32) uint32 { return math.Float32bits(x) }
+func bf(b uint32) float32 { return math.Float32frombits(b) }
 func smStep(s uint64) (z, ns uint64) {
 	s += 0x9E3779B97F4A7C15
 	z = s
@@ -1180,6 +1180,17 @@ func corrC04(c *corrCtx) {
 	const etaP = 1.0 / 1024
 	const delta = (1.0/1022)*(1+eta) + 4e-6
 	worst := 0.0
+	// pixels converted once pair by pair (below) and then again pixel by pixel, every pair in turn for the same pixel:
+	// a conversion's result may depend on its arguments only, not on what was converted just before
+	var ilPx []color.NRGBA
+	for k := 0; k < 150; k++ {
+		px := color.NRGBA{R: uint8(r.next()), G: uint8(r.next()), B: uint8(r.next()), A: uint8(r.next())}
+		if k%3 == 0 {
+			px = color.NRGBA{R: 0, G: 0, B: uint8(r.next()), A: 255}
+		}
+		ilPx = append(ilPx, px)
+	}
+	ilRes := map[[2]int][]color.NRGBA{}
 	for i := range spaces {
 		for j := range spaces {
 			src, dst := &spaces[i], &spaces[j]
@@ -1220,13 +1231,13 @@ func corrC04(c *corrCtx) {
 				}
 			}
 			batches := []struct {
-				mode              string
-				total, per, step  int
+				mode             string
+				total, per, step int
 			}{{"lat", 1 << 15, 1024, 512 + 1}, {"rnd", 20000, 1000, 1}}
 			if c.thorough() {
 				batches = []struct {
-					mode              string
-					total, per, step  int
+					mode             string
+					total, per, step int
 				}{{"lat", 1 << 20, 8192, 16}, {"rnd", 400000, 8192, 1}, {"alpha", 1 << 18, 8192, 16387}}
 			}
 			for _, b := range batches {
@@ -1290,6 +1301,29 @@ func corrC04(c *corrCtx) {
 				got := convertGo(src, dst, ad, px)
 				check(px, got)
 				c.emit("pair/single", fmt.Sprintf("c04 %s %s %x %x %x %x", src.name, dst.name, px.R, px.G, px.B, px.A), fmt.Sprintf("%02x %02x %02x %02x", got.R, got.G, got.B, got.A))
+			}
+			for _, px := range ilPx {
+				got := convertGo(src, dst, ad, px)
+				check(px, got)
+				ilRes[[2]int{i, j}] = append(ilRes[[2]int{i, j}], got)
+			}
+		}
+	}
+	for k, px := range ilPx {
+		for i := range spaces {
+			for j := range spaces {
+				src, dst := &spaces[i], &spaces[j]
+				var ad *ciexyz.ChromaticAdaptation
+				if src.white != dst.white {
+					a := ciexyz.AdaptBetweenXYYWhitePoints(src.white, dst.white)
+					ad = &a
+				}
+				got := convertGo(src, dst, ad, px)
+				c.stats["pair/interleaved"]++
+				if want := ilRes[[2]int{i, j}][k]; got != want {
+					c.direct(fmt.Sprintf("C04/interleaved/%s-%s/%02x%02x%02x%02x", src.name, dst.name, px.R, px.G, px.B, px.A), "a conversion's result depends on what was converted before it (the same pixel through every pair in turn differs from the pair-by-pair result)",
+						map[string]interface{}{"src": src.name, "dst": dst.name, "pixel": []uint8{px.R, px.G, px.B, px.A}, "got": []uint8{got.R, got.G, got.B, got.A}, "pair_by_pair": []uint8{want.R, want.G, want.B, want.A}})
+				}
 			}
 		}
 	}
